@@ -789,7 +789,16 @@ func (h *c17Hist) render(seed uint64) []*c17Segment {
 			for _, p := range params {
 				fmt.Fprintf(&g, "%s := %s\n", p[0], p[1])
 			}
-			fmt.Fprintf(&g, "for it%d := 0; it%d < 3; it%d++ {\nswitch it%d {\ncase 0:\ncontinue\ncase 7:\nbreak\n}\n%s}\n", id, id, id, id, body)
+			switch id % 3 {
+			case 0:
+				fmt.Fprintf(&g, "for it%d := 0; it%d < 3; it%d++ {\nswitch it%d {\ncase 0:\ncontinue\ncase 7:\nbreak\n}\n%s}\n", id, id, id, id, body)
+			case 1:
+				// the continue stands in a LATER case
+				fmt.Fprintf(&g, "for it%d := 0; it%d < 3; it%d++ {\nswitch it%d {\ncase 7:\nbreak\ncase 8:\nprint(\"<<N>>\")\ncase 0:\ncontinue\n}\n%s}\n", id, id, id, id, body)
+			default:
+				// … or in an else-if branch
+				fmt.Fprintf(&g, "for it%d := 0; it%d < 3; it%d++ {\nif it%d == 7 {\nprint(\"<<N>>\")\n} else if it%d == 8 {\nprint(\"<<N>>\")\n} else if it%d == 0 {\ncontinue\n}\n%s}\n", id, id, id, id, id, id, body)
+			}
 			return g.String()
 		case "loopcall":
 			// the operation stands in a counting (or range) loop that, in its second round only, calls
@@ -1173,8 +1182,15 @@ func (h *c17Hist) render(seed uint64) []*c17Segment {
 				fmt.Fprintf(&sb, "var rr%d string\nfor it%d := 0; it%d < 1; it%d++ {\nrr%d = read(%s)\n}\n", id, id, id, id, id, pe)
 			case "multiret":
 				// the value is the FIRST of several results, and a later result is a user function call
-				fmt.Fprintf(&sb, "func gk%d(b%d string) string {\nreturn b%d + \"!\"\n}\nfunc fn%d(a%d string) (string, string, int) {\nreturn read(a%d), gk%d(\"k\"), len(gk%d(\"kk\"))\n}\nrr%d, gs%d, gi%d := fn%d(%s)\nprint(\"<<N>>\" + gs%d, gi%d)\n",
-					id, id, id, id, id, id, id, id, id, id, id, id, pe, id, id)
+				// (the other results are checked too: a wrong one is glued to the value that is compared)
+				if id%2 == 0 {
+					fmt.Fprintf(&sb, "func gk%d(b%d string) string {\nreturn b%d + \"!\"\n}\nfunc fn%d(a%d string) (string, string, int) {\nreturn read(a%d), gk%d(\"k\"), len(gk%d(\"kk\"))\n}\nrr%d, gs%d, gi%d := fn%d(%s)\nprint(\"<<N>>\" + gs%d, gi%d)\nif gs%d != \"k!\" {\nrr%d = rr%d + \"<<WRONG-SECOND-RESULT>>\" + gs%d\n}\nif gi%d != 3 {\nrr%d = rr%d + \"<<WRONG-THIRD-RESULT>>\"\n}\n",
+						id, id, id, id, id, id, id, id, id, id, id, id, pe, id, id, id, id, id, id, id, id, id)
+				} else {
+					// … and the LAST result is a direct call of a user function
+					fmt.Fprintf(&sb, "func gk%d(b%d string) string {\nreturn b%d + \"!\"\n}\nfunc fn%d(a%d string) (string, int, string) {\nreturn read(a%d), len(gk%d(\"kk\")), gk%d(\"k\")\n}\nrr%d, gi%d, gs%d := fn%d(%s)\nprint(\"<<N>>\" + gs%d, gi%d)\nif gs%d != \"k!\" {\nrr%d = rr%d + \"<<WRONG-THIRD-RESULT>>\" + gs%d\n}\nif gi%d != 3 {\nrr%d = rr%d + \"<<WRONG-SECOND-RESULT>>\"\n}\n",
+						id, id, id, id, id, id, id, id, id, id, id, id, pe, id, id, id, id, id, id, id, id, id)
+				}
 			case "scopes":
 				nm := rng.Pick([]string{"tmpv", "scratch", "acc", "cur", "buf", "line0"}) // (no theme and no generated identifier uses these: a block variable may not shadow a global)
 				fmt.Fprintf(&sb, "func fn%d(a%d string) string {\n%s := a%d + \"!\"\nreturn %s\n}\nvar rr%d string\nif true {\n%s := %s\nk%d := fn%d(\"k\")\nrr%d = read(%s)\nprint(\"<<N>>\" + k%d)\n}\n",
